@@ -202,6 +202,33 @@ theorem etwin_fire_bounds_run (c : Cfg) (es : List (Elem α)) :
   have : p.1 = j := by omega
   rw [this]; exact h
 
+/-- **C13 (fire bounds, whole run, upper bound).** If the `i`-th element of a run is
+    `Watermark(w)`, then every non-empty window with `end ≤ w` that is open when it arrives is
+    emitted *at index `i`* (i.e. — `WindowOperator` buffers results before the control element —
+    before `Watermark(w)` is forwarded), and afterwards no window with `end ≤ w` is open.
+    Together with `etwin_fire_bounds_run`: a window is emitted exactly at the first watermark
+    `w ≥ end` that follows its creation, or at the end of the iteration. -/
+theorem etwin_fire_bounds_run_upper (c : Cfg) (hS : 0 < c.slide) (es : List (Elem α)) (i : Nat) (w : Int)
+    (h : es[i]? = some (.wm w)) :
+    (∀ s ∈ (stateAfter c State.init (es.take i)).ws, s.active = true → s.stop ≤ w →
+        (i, (⟨s.items, some s.stop⟩ : Res α)) ∈ run c es) ∧
+    (∀ s ∈ (stateAfter c State.init (es.take (i + 1))).ws, w < s.stop) := by
+  have inv := etwin_reachable_inv c hS (es.take i)
+  obtain ⟨h1, h2⟩ := (etwin_fire_bounds c hS _ inv).2.1 w
+  constructor
+  · intro s hs hact hle
+    have hr : (⟨s.items, some s.stop⟩ : Res α) ∈ (process c (stateAfter c State.init (es.take i)) (.wm w)).2 := by
+      rw [h1]
+      simp only [emit, List.mem_map, List.mem_filter]
+      exact ⟨s, ⟨⟨hs, by simpa using hle⟩, hact⟩, rfl⟩
+    have := mem_runFrom_of_step c es State.init 0 i (.wm w) _ h hr
+    simpa [run] using this
+  · intro s hs
+    rw [stateAfter_take_succ c es State.init i (.wm w) h, h2, List.mem_filter] at hs
+    have := hs.2
+    simp at this
+    omega
+
 /-! ### regression examples: the witnesses of the two defects that were fixed in /repo -/
 
 /-- Former F2 witness (`tumbling(10)`, timestamps 5, 3, 7, no watermark). Before commit c425a6d the
